@@ -231,6 +231,10 @@ func C02Scenarios(tier string) []*h.Scenario {
 	// fleet mode with a cool-down (30 s) shorter than the fleet ready timeout and than the scan interval
 	short := mk("c02.fleet.30s", true, false)
 	short.Groups[0].Opts.ScaleUpCoolDownPeriod = "30s"
+	// a cool-down that ends 400 ms after a scan (120.4 s on the 60 s grid): the scan 0.4 s before expiry
+	// is still inside the window
+	frac := mk("c02.setdesired.120400ms", false, false)
+	frac.Groups[0].Opts.ScaleUpCoolDownPeriod = "120400ms"
 	// the documented extra scale-up triggers enabled: a starved pending pod or an over-age node inside
 	// the window must not get past the lock either
 	trig := mk("c02.setdesired.triggers", false, false)
@@ -241,6 +245,7 @@ func C02Scenarios(tier string) []*h.Scenario {
 		zero,
 		short,
 		off,
+		frac,
 		trig,
 		mk("c02.setdesired", false, false),
 		mk("c02.setdesired.tainted", false, true),
